@@ -199,7 +199,7 @@ func cmdCheck(args []string) int {
 	// which functions carry this property
 	var keys []string
 	for k, c := range e.CS.ByKey {
-		if c.Kind == "func" && !c.Trusted && hasProp(c.Props, prop) {
+		if verifiesFor(c, prop) {
 			keys = append(keys, k)
 		}
 	}
@@ -229,6 +229,9 @@ func cmdCheck(args []string) int {
 			continue
 		}
 		for _, o := range os2 {
+			if c.Trusted && (o.Kind == "ensures" || o.Kind == "frame" || (o.Kind == "cover" && o.Label == "return")) {
+				continue // safety-only sweep of a function whose functional contract stays assumed
+			}
 			if len(o.Props) == 0 || hasProp(o.Props, prop) {
 				obls = append(obls, o)
 			}
@@ -434,22 +437,22 @@ func cmdCheck(args []string) int {
 		ps[k] = map[string]interface{}{"obligations": v.N, "seconds": round3(v.S)}
 	}
 	extra := map[string]interface{}{
-		"functions_under_contract": fuc,
-		"inlined_functions":        sortedKeys(inlined),
-		"per_solver":               ps,
-		"solver_wall_s":            round3(solverWall),
-		"load_s":                   round3(loadS),
-		"vcgen_s":                  round3(genS),
-		"known_findings":           knownHit,
-		"known_finding_obligations": knownObls,
-		"not_decided":              meta.NotDecided,
-		"bounded_checks":           boundedResults,
-		"bounded_notes":            meta.Bounded,
-		"abstraction_notes":        notes,
-		"assumed_contracts_used":   trusted,
+		"functions_under_contract":     fuc,
+		"inlined_functions":            sortedKeys(inlined),
+		"per_solver":                   ps,
+		"solver_wall_s":                round3(solverWall),
+		"load_s":                       round3(loadS),
+		"vcgen_s":                      round3(genS),
+		"known_findings":               knownHit,
+		"known_finding_obligations":    knownObls,
+		"not_decided":                  meta.NotDecided,
+		"bounded_checks":               boundedResults,
+		"bounded_notes":                meta.Bounded,
+		"abstraction_notes":            notes,
+		"assumed_contracts_used":       trusted,
 		"assumed_clauses_in_contracts": e.CS.AssumedClauses,
-		"expected_obligations":     len(expected[prop]),
-		"expected_missing":         missing,
+		"expected_obligations":         len(expected[prop]),
+		"expected_missing":             missing,
 	}
 	writeEvidence(evidencePath, prop, tier, seed, reports, extra, total, discharged, time.Since(t0).Seconds(), violations, trusted, notes, fuc, meta, knownHit)
 	fmt.Printf("property %s: %d obligations, %d discharged, %d violations, %.1fs (load %.1fs, solver %.1fs)\n", prop, total, discharged, violations, time.Since(t0).Seconds(), loadS, solverWall)
@@ -457,6 +460,16 @@ func cmdCheck(args []string) int {
 		return 1
 	}
 	return 0
+}
+
+// verifiesFor: the function's body is verified for prop. A trusted contract is normally only
+// assumed; `trusted` + `safe` asks for the no-panic obligations of the body under C12 while the
+// functional clauses stay assumed.
+func verifiesFor(c *Contract, prop string) bool {
+	if c.Kind != "func" || !hasProp(c.Props, prop) {
+		return false
+	}
+	return !c.Trusted || (c.Safe && prop == "C12")
 }
 
 func fileSafe(s string) string {
@@ -654,7 +667,7 @@ func cmdExpect(args []string) int {
 	for _, prop := range sortedKeys(props) {
 		names := map[string]bool{}
 		for k, c := range e.CS.ByKey {
-			if c.Kind != "func" || c.Trusted || !hasProp(c.Props, prop) {
+			if !verifiesFor(c, prop) {
 				continue
 			}
 			fn := e.FuncByKey(k)
@@ -667,6 +680,16 @@ func cmdExpect(args []string) int {
 			if err != nil {
 				fmt.Fprintln(os.Stderr, err)
 				return 2
+			}
+			if c.Trusted {
+				var keep []*Obligation
+				for _, o := range obls {
+					if o.Kind == "ensures" || o.Kind == "frame" || (o.Kind == "cover" && o.Label == "return") {
+						continue
+					}
+					keep = append(keep, o)
+				}
+				obls = keep
 			}
 			var covers []*Obligation
 			for _, o := range obls {
